@@ -306,3 +306,105 @@ Lemma row_error k eps bef t aft std ste dd de injd inje :
 Proof.
   destruct (is_sell (t_act t)) eqn:Hsell; [eapply row_error_sell | eapply row_error_nonsell]; exact Hsell.
 Qed.
+
+(* ---- the two ledgers in lockstep ---- *)
+Fixpoint rows_close (c eps : Qc) (dsd dse : list delta) : Prop :=
+  match dsd, dse with
+  | dd :: x, de :: y => fig_close (eps + c) dd de /\ rows_close c (eps + c) x y
+  | _, _ => True
+  end.
+
+Lemma run_loop_error k : (2 * k + 2 <= 28)%nat ->
+  forall aft bef std ste eps dsd od dse oe,
+  0 <= eps -> st_close eps std ste ->
+  Forall (fun t => valid_tx t = true) aft ->
+  run_loop dec bef std aft = (dsd, od) -> run_loop exact bef ste aft = (dse, oe) ->
+  in_class k dsd dse = true ->
+  rows_close (cR k) eps dsd dse.
+Proof.
+  intros Hk. induction aft as [|t rest IH]; intros bef std ste eps dsd od dse oe Heps Hst Hv Hd He Hc.
+  - cbn [run_loop] in Hd. inversion Hd; subst. exact I.
+  - cbn [run_loop] in Hd, He. inversion Hv as [|? ? Hvt Hvr]; subst.
+    destruct (delta_for_tx dec bef t rest std) as [[dd injd]| |] eqn:Ed; try (inversion Hd; subst; exact I).
+    destruct (delta_for_tx exact bef t rest ste) as [[de inje]| |] eqn:Ee;
+      try (inversion He; subst; destruct dsd; exact I).
+    destruct (set_latest dec std (t_af t) (d_post dd)) as [std1| |] eqn:Sd; try (inversion Hd; subst; exact I).
+    destruct (set_latest exact ste (t_af t) (d_post de)) as [ste1| |] eqn:Se;
+      try (inversion He; subst; destruct dsd; exact I).
+    destruct (run_injected dec (t :: bef) std1 injd rest) as [[[dsid befd] std2] oid] eqn:Rd.
+    destruct (run_injected exact (t :: bef) ste1 inje rest) as [[[dsie befe] ste2] oie] eqn:Re.
+    assert (Hhead : exists xd xe, dsd = dd :: xd /\ dse = de :: xe).
+    { destruct oid; [|destruct (run_loop dec befd std2 rest)]; inversion Hd; subst;
+        (destruct oie; [|destruct (run_loop exact befe ste2 rest)]; inversion He; subst; eauto). }
+    destruct Hhead as (xd & xe & -> & ->). cbn [in_class] in Hc. apply andb_prop in Hc as [Hc1 Hc2].
+    destruct (row_error k eps bef t rest std ste dd de injd inje Hk Heps Hst Hvt Ed Ee Hc1) as (-> & -> & Hfig).
+    cbn [run_injected] in Rd, Re. inversion Rd; subst; clear Rd. inversion Re; subst; clear Re.
+    destruct (run_loop dec (t :: bef) std2 rest) as [dsd' od'] eqn:Ld.
+    destruct (run_loop exact (t :: bef) ste2 rest) as [dse' oe'] eqn:Le.
+    cbn [app] in Hd, He. inversion Hd; subst; clear Hd. inversion He; subst; clear He.
+    cbn [rows_close]. split; [exact Hfig|].
+    pose proof (cR_nonneg k) as C0.
+    apply (IH (t :: bef) std2 ste2 (eps + cR k) xd od xe oe); try assumption.
+    + clear - Heps C0. qc_lra.
+    + apply (set_latest_close (eps + cR k) dec exact std ste (t_af t) (d_post dd) (d_post de)); try assumption.
+      * apply (st_close_mono eps); [clear - C0; qc_lra | exact Hst].
+      * apply Hfig.
+Qed.
+
+Lemma QcZ_S n : QcZ (Z.of_nat (S n)) = QcZ (Z.of_nat n) + 1.
+Proof.
+  apply Qc_is_canon. unfold QcZ. qc_unfold. rewrite Nat2Z.inj_succ.
+  unfold Qeq, Qplus, inject_Z. cbn [Qnum Qden]. lia.
+Qed.
+
+Lemma fig_close_mono e e' a b : e <= e' -> fig_close e a b -> fig_close e' a b.
+Proof. intros He [H1 H2]. split; [eapply status_close_mono | eapply qclose_mono]; eauto. Qed.
+
+Lemma rows_close_nth c : 0 <= c -> forall dsd dse eps i dd de,
+  rows_close c eps dsd dse -> nth_error dsd i = Some dd -> nth_error dse i = Some de ->
+  fig_close (eps + QcZ (Z.of_nat (S i)) * c) dd de.
+Proof.
+  intros Hc. induction dsd as [|a x IH]; intros dse eps i dd de H Hd He.
+  - destruct i; discriminate Hd.
+  - destruct dse as [|b y]; [destruct i; discriminate He|]. cbn [rows_close] in H. destruct H as [H1 H2].
+    destruct i as [|i].
+    + cbn [nth_error] in Hd, He. inversion Hd; inversion He; subst.
+      replace (eps + QcZ (Z.of_nat 1) * c) with (eps + c); [exact H1|].
+      assert (E : QcZ (Z.of_nat 1) = 1) by (apply Qc_is_canon; reflexivity). rewrite E. ring.
+    + cbn [nth_error] in Hd, He. pose proof (IH y (eps + c) i dd de H2 Hd He) as H.
+      replace (eps + QcZ (Z.of_nat (S (S i))) * c) with (eps + c + QcZ (Z.of_nat (S i)) * c); [exact H|].
+      rewrite (QcZ_S (S i)). ring.
+Qed.
+
+(* ---- whole histories ---- *)
+Lemma st_close_empty e a :
+  st_close e {| ps_map := []; ps_all := 0; ps_latest := a |} {| ps_map := []; ps_all := 0; ps_latest := a |}.
+Proof. split; [reflexivity | split; [reflexivity | intros id; exact I]]. Qed.
+Lemma status_close_refl e s : 0 <= e -> status_close e s s.
+Proof. intros He. split; [reflexivity | split; [reflexivity | apply qclose_refl, He]]. Qed.
+
+Theorem run_error_accumulates (k : nat) init txs dsd od dse oe :
+  (2 * k + 2 <= 28)%nat ->
+  Forall (fun t => valid_tx t = true) txs ->
+  run dec init txs = (dsd, od) -> run exact init txs = (dse, oe) ->
+  in_class k dsd dse = true ->
+  forall i dd de, nth_error dsd i = Some dd -> nth_error dse i = Some de ->
+    fig_close (QcZ (Z.of_nat (S i)) * cR k) dd de.
+Proof.
+  intros Hk Hv Hd He Hc i dd de Nd Ne.
+  assert (H : rows_close (cR k) 0 dsd dse).
+  { unfold run in Hd, He. destruct txs as [|t0 r]; [inversion Hd; subst; exact I|].
+    destruct (init_state dec init) as [std| |] eqn:Id; try (inversion Hd; subst; exact I).
+    destruct (init_state exact init) as [ste| |] eqn:Ie; try (inversion He; subst; destruct dsd; exact I).
+    apply (run_loop_error k Hk (t0 :: r) [] std ste 0 dsd od dse oe); try assumption.
+    - apply Qcle_refl.
+    - unfold init_state in Id, Ie. destruct init as [i0|].
+      + destruct (negb (Qceqb (s_sh i0) (s_all i0))); [discriminate|].
+        apply (set_latest_close 0 dec exact {| ps_map := []; ps_all := 0; ps_latest := default_aff |}
+                 {| ps_map := []; ps_all := 0; ps_latest := default_aff |} default_aff i0 i0); try assumption.
+        * apply st_close_empty.
+        * apply status_close_refl, Qcle_refl.
+      + inversion Id; inversion Ie; subst. apply st_close_empty. }
+  pose proof (rows_close_nth (cR k) (cR_nonneg k) dsd dse 0 i dd de H Nd Ne) as F.
+  replace (QcZ (Z.of_nat (S i)) * cR k) with (0 + QcZ (Z.of_nat (S i)) * cR k) by ring. exact F.
+Qed.
